@@ -1,5 +1,6 @@
 import Hgxv.Model.Wire
 import Hgxv.Model.C16
+import Hgxv.Model.C16Ext
 /-! Line protocol for C16 (every line carries its whole input; the only state is the sampler-state record
 `C16.Sampler` used by `new` / `call...`: the other commands leave it alone).
 
@@ -23,8 +24,14 @@ import Hgxv.Model.C16
   `callhyg labels edges burn thins quantiles`              -> `report state out|out|...` | `none state`
   `callseqs degSeq dimSeq picks burn thins quantiles`      -> likewise     (`sample(deg_seq, dim_seq)`)
   `callmodel degSeq dimSeq dyads picks burn thins quantiles` -> likewise   (`sample()`; sequences / dyads of the inner model)
-        one `sample(...)` call on the sampler in the current state (`callStep true`); `report` = the report
-        `matching_sequences` made by this call (`-` none, `0`, `1`), `state` = the attribute after the call -/
+  `calldeg degSeq dimSeq picks burn thins quantiles`       -> likewise     (`sample(deg_seq=d)`; `dimSeq` drawn by the inner model)
+  `calldim degSeq dimSeq picks burn thins quantiles`       -> likewise     (`sample(dim_seq=m)`; `degSeq` drawn by the inner model)
+        one `sample(...)` call on the sampler in the current state (`callStepX`, all five kinds of arguments); `report` =
+        the report `matching_sequences` made by this call (`-` none, `0`, `1`), `state` = the attribute after the call -
+        also after a call that raised inside `_match_sequences` (`none state`)
+  `matchr degSeq dimSeq fd fm picks`                       -> `done cfg flag keys resid unused` | `raised state`
+        `_match_sequences` for all four flag pairs with its error path (`matchFull`); `state` = `matching_sequences`
+        after the exception (`-` None, `0` False) -/
 open Wire C16
 
 def stepOf? : List Nat → Option StepDraw
@@ -54,12 +61,12 @@ def showFlag : Option Bool → String
   | none => "-"
   | some b => showBool b
 
-def doCall (s : Sampler) (c : Call) : Sampler × String :=
-  match callStep true s c with
+def doCall (s : Sampler) (c : CallX) : Sampler × String :=
+  match callStepX s c with
   | (s', some r) => (s', s!"{showFlag r.report} {showFlag s'.flag} {showOuts r.outs}")
   | (s', none) => (s', s!"none {showFlag s'.flag}")
 
-def callOf? : List String → Option Call
+def callOf? : List String → Option CallX
   | ["callhyg", l, e, b, t, w] =>
     match nats? l, natss? e, steps? b, blocks? t, natss? w with
     | some labels, some edges, some burn, some thins, some ws =>
@@ -75,6 +82,16 @@ def callOf? : List String → Option Call
     | some degSeq, some dimSeq, some dyads, some picks, some burn, some thins, some ws =>
       some ⟨.model, ⟨picks, burn, thins, ws⟩, ⟨degSeq, dimSeq, dyads⟩⟩
     | _, _, _, _, _, _, _ => none
+  | ["calldeg", d, m, p, b, t, w] =>
+    match nats? d, pairs? m, natss? p, steps? b, blocks? t, natss? w with
+    | some degSeq, some dimSeq, some picks, some burn, some thins, some ws =>
+      some ⟨.degOnly degSeq, ⟨picks, burn, thins, ws⟩, ⟨[], dimSeq, []⟩⟩
+    | _, _, _, _, _, _ => none
+  | ["calldim", d, m, p, b, t, w] =>
+    match nats? d, pairs? m, natss? p, steps? b, blocks? t, natss? w with
+    | some degSeq, some dimSeq, some picks, some burn, some thins, some ws =>
+      some ⟨.dimOnly dimSeq, ⟨picks, burn, thins, ws⟩, ⟨degSeq, [], []⟩⟩
+    | _, _, _, _, _, _ => none
   | _ => none
 
 def stateless (_ : Unit) : List String → Unit × String
@@ -109,6 +126,13 @@ def stateless (_ : Unit) : List String → Unit × String
       match matchSequences degSeq dimSeq fd fm picks with
       | some st => ((), s!"{showCfg st.cfg} {showBool st.flag} {showNats st.keys} {showNats st.resid} {st.picks.length}")
       | none => ((), "none")
+    | _, _, _, _, _ => ((), "bad-op")
+  | ["matchr", d, m, fd, fm, p] =>
+    match nats? d, pairs? m, flag? fd, flag? fm, natss? p with
+    | some degSeq, some dimSeq, some fd, some fm, some picks =>
+      match matchFull degSeq dimSeq fd fm picks with
+      | .done st => ((), s!"done {showCfg st.cfg} {showBool st.flag} {showNats st.keys} {showNats st.resid} {st.picks.length}")
+      | .raised ok => ((), s!"raised {showFlag (flagOfRes (.raised ok))}")
     | _, _, _, _, _ => ((), "bad-op")
   | ["output", c, w, l] =>
     match natss? c, nats? w, labels? l with
@@ -155,7 +179,7 @@ def step (s : Sampler) (toks : List String) : Sampler × String :=
   match toks with
   | ["new"] => (⟨none⟩, "ok")
   | cmd :: _ =>
-    if cmd = "callhyg" || cmd = "callseqs" || cmd = "callmodel" then
+    if cmd = "callhyg" || cmd = "callseqs" || cmd = "callmodel" || cmd = "calldeg" || cmd = "calldim" then
       match callOf? toks with
       | some c => doCall s c
       | none => (s, "bad-op")
